@@ -169,6 +169,20 @@ theorem warm_start_preserves {D : Table} {n nIters : Nat} (T : TableOK D n) {s :
   · exact c1
   · exact c2 x hx
 
+/-- …and from a consistent state the sweeps always run through (no assert trips, no empty cluster, no index
+error) given `k` valid explicit proposals or `nIters·k` recorded random draws: the hypotheses `= .ok r`
+of this file are never vacuous -/
+theorem kmedoids_sweeps_total {D : Table} {n nIters : Nat} (T : TableOK D n) (hn : 0 < n) (hi : 0 < nIters)
+    {s : St} (hs : Consistent D n s) {props : Option (List Nat)} {orc : List Nat}
+    (hp : PropsOK n s.ctrInds.length props orc (nIters * s.ctrInds.length)) :
+    ∃ r, kmedoidsIterations D n nIters s props orc = .ok r := by
+  unfold kmedoidsIterations
+  simp only [Nat.pos_iff_ne_zero.mp hi, if_false]
+  exact sweepsFrom_total T hn nIters hs hp
+
+example : PropsOK 6 s6.ctrInds.length (some [1, 4]) [] (2 * s6.ctrInds.length) := by
+  refine ⟨by decide, by decide⟩
+
 /-- the same through `kmedoids` itself, for each of its warm-start forms (indices only / all three /
 labels+distances only) -/
 theorem kmedoids_warm_start_preserves {D : Table} {n nIters : Nat} (T : TableOK D n) {inds : Option (List Nat)}
